@@ -271,6 +271,8 @@ def run_property(prop: str, tier: str, seed: int, only: Optional[str] = None) ->
     mod = load_module(prop)
     known = load_known(prop)
     shrink_cap = 45 if tier == "quick" else 200
+    if hasattr(mod, "prepare"):
+        mod.prepare()  # one-off work in the parent (e.g. building the C++ driver) before the workers start
     jobs = []
     for check in mod.CHECKS:
         if only and check.name != only:
